@@ -67,10 +67,28 @@ requires the type information from the compiled sources.`, pkg.PkgPath, pkg.Erro
 					}
 					rawConverters = append(rawConverters, converters...)
 				}
+				if funcDecl, ok := decl.(*ast.FuncDecl); ok {
+					if err := checkFuncDecl(funcDecl); err != nil {
+						location := pkg.Fset.Position(funcDecl.Pos()).String()
+						return rawConverters, fmt.Errorf("%s: %s", location, err)
+					}
+				}
 			}
 		}
 	}
 	return rawConverters, nil
+}
+
+// checkFuncDecl rejects converter/variables markers on function declarations.
+func checkFuncDecl(decl *ast.FuncDecl) error {
+	docs := parse.CommentToString(decl.Doc)
+	if strings.Contains(docs, variablesMarker) {
+		return fmt.Errorf("%s must be defined on %q-block but was %q", variablesMarker, token.VAR, token.FUNC.String())
+	}
+	if strings.Contains(docs, converterMarker) {
+		return fmt.Errorf("%s must be defined on %q-block but was %q", converterMarker, token.TYPE, token.FUNC.String())
+	}
+	return nil
 }
 
 func parseFunctions(fset *token.FileSet, pkg *types.Package, decl *ast.GenDecl, comments string) ([]config.RawConverter, error) {
